@@ -360,6 +360,14 @@ BLOCKED_CSV = {
     # an actor that never acts is cleaned up at the end like the others
     "idle-actor-second-cleanup-fails": ("role r\n  :ok true\nend\nrole janitor\n  cleanup test ! -e ../cleaned-w; rc=$?; touch ../cleaned-w; exit $rc\nend\ncast\n  x plays r\n  w plays janitor\nend\nscript\n  tempo 100ms\n  scene s entails for x: ok\n  storyline s.s\nend\n", True),
     "idle-actor-clean": ("role r\n  :ok true\nend\nrole janitor\n  cleanup true\nend\ncast\n  x plays r\n  w plays janitor\nend\nscript\n  tempo 100ms\n  scene s entails for x: ok\n  storyline s.s\nend\n", False),
+    # one file of the data directory cannot be created (the first cleanup left a
+    # directory of that name): the audit data file of a satisfied auditor, the
+    # report index, the result file, the action data file
+    "audit-csv-file-blocked": ("role r\n  cleanup mkdir -p ../../csv/audit-bob.csv\n  :a true\nend\ncast\n  x plays r\nend\nscript\n  tempo .1s\n  scene a entails for x: a\n  storyline a\nend\naudience\n  bob expects always: mood == 'clear'\nend\n", True),
+    "index-html-blocked": ("role r\n  cleanup mkdir -p ../../index.html\n  :a true\nend\ncast\n  x plays r\nend\nscript\n  tempo .1s\n  scene a entails for x: a\n  storyline a\nend\naudience\n  bob expects always: mood == 'clear'\nend\n", True),
+    "result-js-blocked": ("role r\n  cleanup mkdir -p ../../result.js\n  :a true\nend\ncast\n  x plays r\nend\nscript\n  tempo .1s\n  scene a entails for x: a\n  storyline a\nend\naudience\n  bob expects always: mood == 'clear'\nend\n", True),
+    "action-csv-file-blocked": ("role r\n  cleanup mkdir -p ../../csv/x.csv\n  :a true\nend\ncast\n  x plays r\nend\nscript\n  tempo .1s\n  scene a entails for x: a\n  storyline a\nend\naudience\n  bob expects always: mood == 'clear'\nend\n", True),
+    "no-file-blocked-satisfied-auditor": ("role r\n  cleanup true\n  :a true\nend\ncast\n  x plays r\nend\nscript\n  tempo .1s\n  scene a entails for x: a\n  storyline a\nend\naudience\n  bob expects always: mood == 'clear'\nend\n", False),
     "csv-directory-free-idle-play": ("role janitor\n  cleanup true\nend\ncast\n  jan plays janitor\nend\nscript\n  tempo 100ms\n  storyline ..\nend\n", False),
 }
 
@@ -499,7 +507,7 @@ def run(tier, seed):
                           "play with the single cause %r%s exits %s, documented: %s" %
                           (p["name"], " (-S)" if p["early"] else "", p["exit"], "non-zero" if p["expected_nonzero"] else "0"),
                           {"kind": "failing-input", "play": p, "replay": "shakespeare -o out --disable-plots -q %splay.cfg" % ("-S " if p["early"] else "")})
-        elif p["foul_flag"] is not None and p["foul_flag"] != (p["exit"] != 0) and p["name"] != "second-cleanup-fails":
+        elif p["foul_flag"] is not None and p["foul_flag"] != (p["exit"] != 0) and p["name"] not in ("second-cleanup-fails", "index-html-blocked"):  # both happen after result.js has been written
             res.violation("foul-flag-" + p["name"], "result.js Foul=%s but exit status %s" % (p["foul_flag"], p["exit"]),
                           {"kind": "failing-input", "play": p})
     seen = set()
